@@ -28,6 +28,16 @@ try:
 except Exception as _ex:
     SIMPLIFY_GEN_STATUS = "unparsed generator-failed: %s" % str(_ex)[:200]
 
+# round 4: WHOLE bodies in continuation-passing style -> coq/gen/SimplestFloatGen.v (FBig::ulp, Context::max,
+# with_precision, add_ref_val, Repr::try_from, simplest_from_float) and coq/gen/SimplifyBodiesGen.v (Repr/RBig::simplest_in,
+# nearest, next_up, next_down); proved equal to the as-is models in Ratio/SimplestDeepProof.v / SimplifyBodiesProof.v.
+try:
+    import translate_c18_r4
+    R4_STATUS = translate_c18_r4.generate(core.REPO, os.path.join(core.COQ, "gen"))
+except Exception as _ex:
+    R4_STATUS = {"SimplestFloatGen": "unparsed generator-failed: %s" % str(_ex)[:200],
+                 "SimplifyBodiesGen": "unparsed generator-failed: %s" % str(_ex)[:200]}
+
 # A run against a scratch checkout (VERIF_REPO, seeded-change experiments) must not leave the fragments of
 # that checkout in the tree for other builds: regenerate from /repo when the process ends.
 if os.path.realpath(core.REPO) != os.path.realpath("/repo"):
@@ -37,6 +47,7 @@ if os.path.realpath(core.REPO) != os.path.realpath("/repo"):
         try:
             translate_c18.generate("/repo", os.path.join(core.COQ, "gen"))
             translate_c18_r3.generate("/repo", os.path.join(core.COQ, "gen"))
+            translate_c18_r4.generate("/repo", os.path.join(core.COQ, "gen"))
         except Exception:
             pass
 
@@ -46,9 +57,21 @@ if os.path.realpath(core.REPO) != os.path.realpath("/repo"):
 def extra_phase(tier, seed, exes, oracle):
     word = EB_TABLE_STATUS.split(" ", 1)[0]
     word3 = SIMPLIFY_GEN_STATUS.split(" ", 1)[0]
+    w4f = R4_STATUS["SimplestFloatGen"].split(" ", 1)[0]
+    w4b = R4_STATUS["SimplifyBodiesGen"].split(" ", 1)[0]
+    stale = "correspondence run only (source not parsed; committed copy marked STALE)"
+    r4_samples = [
+        {"fragment": "coq/gen/SimplestFloatGen.v (tools/translate_c18_r4.py from float/src/{fbig,repr,convert,add}.rs, "
+                     "rational/src/third_party/dashu_float.rs)", "status": R4_STATUS["SimplestFloatGen"],
+         "tied_by": "C18_simplest_from_float_deep_is_asis, C18_float_bounds_deep_interval, C18_fbig_add_exact" if w4f == "ok" else stale},
+        {"fragment": "coq/gen/SimplifyBodiesGen.v (tools/translate_c18_r4.py from rational/src/simplify.rs)",
+         "status": R4_STATUS["SimplifyBodiesGen"],
+         "tied_by": "C18_simplest_in_body_regenerated, C18_nearest_body_regenerated, C18_next_up_body_regenerated, "
+                    "C18_next_down_body_regenerated" if w4b == "ok" else stale}]
     return {
         "evaluations": 0,
-        "hist": {"translator_c18:ErrorBoundsTable:" + word: 1, "translator_c18_r3:SimplifyGen:" + word3: 1},
+        "hist": {"translator_c18:ErrorBoundsTable:" + word: 1, "translator_c18_r3:SimplifyGen:" + word3: 1,
+                 "translator_c18_r4:SimplestFloatGen:" + w4f: 1, "translator_c18_r4:SimplifyBodiesGen:" + w4b: 1},
         "nontrivial": [],
         "samples": [{"fragment": "coq/gen/ErrorBoundsTable.v (tools/translate_c18.py from float/src/round.rs)", "status": EB_TABLE_STATUS,
                      "tied_by": "C18_error_bounds_table" if word == "ok" else "correspondence run only (source not parsed; committed copy marked STALE)"},
@@ -57,7 +80,7 @@ def extra_phase(tier, seed, exes, oracle):
                      "tied_by": "C18_is_simpler_than_regenerated, C18_sign_order_regenerated, C18_farey_step_regenerated, "
                                 "C18_farey_neighbors_regenerated, C18_cf_step_regenerated, C18_cf_loop_regenerated, "
                                 "C18_nudge_regenerated, C18_nearest_selection_regenerated" if word3 == "ok"
-                     else "correspondence run only (source not parsed; committed copy marked STALE)"}],
+                     else "correspondence run only (source not parsed; committed copy marked STALE)"}] + r4_samples,
         "failures": [],
     }
 
@@ -105,22 +128,46 @@ LEVEL_TEXT = ("Machine-checked Coq theorems for all inputs: the Stern-Brocot rec
               "exception (F08, F09 repaired); the as-is model of the repaired impl_simplest_from_float! (f32/f64) equals the "
               "specification for every format and EVERY bit pattern: None for every infinity/NaN pattern, 0 for both zeros, "
               "subnormals, powers of two, both signs (F04 repaired, no class left). The open defect (F06) is modelled as-is and "
-              "refuted by a witness; the repaired ones (F01-F05, F07-F09) stay refuted on the earlier bodies.")
-LEVEL_NOTE = ("Trusted: Coq kernel, extraction (FastZ.v), zarith, OCaml driver, Rust harness. Value level (not word level): IBig/UBig "
-              "arithmetic, Repr::cmp, RBig add/reduce and the exact FBig add/sub that forms the bounds are taken as Z/Q mathematics "
-              "(C01/C02/C04/C03's business) and tied by the correspondence run (this round the run exposed exactly such a gap: "
-              "finding F09, the FBig subtraction f - 0 rounds f when the zero carries a smaller precision). 'Rounds to the float' "
-              "is stated declaratively (rounds_to / ieee_rounds_to) and, since this round, proved equivalent to the executable "
-              "round_to_prec / ieee_round of the oracle, so the per-case re-check (end points included iff they round to the "
-              "float, the specified answer rounds to the float) evaluates the relation of the theorems. Only compared, not proved: "
-              "that FBig::ulp/digits, with_precision and the FBig subtraction/addition forming f-L and f+R compute the model's "
-              "fractions; that f32/f64::decode yields (mantissa, exponent) as modelled; the sign dispatch and the final "
-              "unsigned_abs * sign of Repr::simplest_in and the glue of nearest/next_up/next_down around farey_neighbors are "
-              "hand-transcribed (their loop bodies are regenerated). Farey walks take a number of steps linear in the limit "
-              "(recorded in C16): the run bounds limit/denominator for values that already fit. If a source file cannot be "
-              "parsed by tools/translate_c18.py / tools/translate_c18_r3.py the tie of that fragment falls back to the "
+              "refuted by a witness; the repaired ones (F01-F05, F07-F09) stay refuted on the earlier bodies. ROUND 4: (5) the bounds are "
+              "no longer taken at value level: the DEEP as-is model forms them the way the code does - R::error_bounds as FBig values "
+              "(regenerated table; regenerated FBig::ulp, the half_ulp edit, towards_zero), .with_precision(p+1).unwrap() (regenerated "
+              "body over C10's repr_round), &FBig - FBig / &FBig + FBig (regenerated add_ref_val over C03's models of Context::max, "
+              "repr_round, repr_add_small_large / repr_add_large_small / repr_round_sum with an arbitrary sound digits_ub, FBig::new "
+              "normalising), RBig::try_from (regenerated Repr::try_from, reduce) - inside the REGENERATED body of simplest_from_float "
+              "(continuation-passing translation of the whole function); C18_simplest_from_float_deep_is_asis proves it equal to the "
+              "value-level model for every base >= 2, mode, precision (0 included), normalised significand of at most p digits, "
+              "exponent and digit estimate: the FBig subtraction/addition is EXACT because the sum has at most p+1 digits "
+              "(C18_fbig_add_exact from C03's rounded_sum contract; C18_error_bounds_rows_good, re-proved over the regenerated table: "
+              "towards_zero is only applied to the bound on the side of zero); C18_float_bounds_deep_interval: the interval the code "
+              "actually forms IS the specified preimage interval outside F06; C18_simplest_from_float_deep_unless_known / _unlimited: "
+              "deep model = specification. (6) simplest_from_f32/f64 over C06's as-is model of FloatEncoding::decode (cited: "
+              "C06_decode_f32/f64) = bit-level model = specification for every bit pattern of the width "
+              "(C18_simplest_from_f32/f64_over_decode). (7) WHOLE bodies regenerated and proved equal to the as-is models for all "
+              "inputs: Repr::simplest_in (sign dispatch with the early return, abs, cmp/swap/equal end points, the state with which "
+              "the loop is entered, the debug assertion, unsigned_abs * sign) + RBig::simplest_in around the regenerated loop step, "
+              "nearest / next_up / next_down around farey_neighbors (C18_*_body_regenerated). (8) F06 decision recorded with a "
+              "machine-checked witness: conservative bounds floor(B/2) would be sound but not optimal "
+              "(C18_F06_conservative_not_optimal).")
+LEVEL_NOTE = ("Trusted: Coq kernel, extraction (FastZ.v), zarith, OCaml driver, Rust harness. IBig/UBig arithmetic, Repr::cmp and RBig "
+              "add/reduce are Z/Q mathematics (C01/C02/C04's business). Since round 4 the FBig side of simplest_from_float is modelled "
+              "at Repr level on C03's add models and C10's repr_round (cited, not re-proved here): what remains trusted there is "
+              "that those models are the code (C03/C10's correspondence runs; here additionally the op float_bounds compares "
+              "error_bounds, with_precision and the two sums of the real FBig code with the deep model digit for digit, stored "
+              "significand / exponent / context precision), the model of Repr::digits (exact digit count; digits_ub any sound "
+              "estimate - the run evaluates the exact and the worst admissible one) and the hand-written semantics of the atoms the "
+              "translators read (TRUSTED_BASE). f32/f64: decode is C06's model; is_infinite / is_nan / == 0. / to_bits are read "
+              "off the bit pattern (primitive operations of Rust). 'Rounds to the float' is stated declaratively (rounds_to / "
+              "ieee_rounds_to) and proved equivalent to the executable round_to_prec / ieee_round of the oracle. Only compared, not "
+              "proved: Repr::split_at_point and IBig + RBig inside nearest/next_up/next_down are value-level atoms (C10/C04's "
+              "business); the loop of farey_neighbors and of Repr::simplest_in is tied one iteration at a time (round 3) and the "
+              "fuel of the models is a proved bound, not something the code has. F06 (odd base, half modes) stays open: it needs "
+              "bounds that are not FBig<_, B> (API change); the conservative variant is sound but not optimal (recorded, not applied). "
+              "Performance: next_up/next_down/nearest walk the Stern-Brocot path one mediant at a time - the number of steps is linear "
+              "in limit/denominator (C16 finding farey_linear_steps); the classical O(log) continued-fraction algorithm would be a "
+              "rewrite of farey_neighbors, recorded only; the run bounds limit/denominator for values that already fit. If a source "
+              "file cannot be parsed by tools/translate_c18.py / _r3.py / _r4.py the tie of that fragment falls back to the "
               "correspondence run (reported in the evidence, not an alarm).")
-TECHNIQUE = "Coq proof (Stern-Brocot minimality, Farey invariant, rounding preimages) + as-is models + source fragments regenerated into Coq on every run + extracted-spec correspondence run"
+TECHNIQUE = "Coq proof (Stern-Brocot minimality, Farey invariant, rounding preimages, exactness of the FBig bound arithmetic from C03's add contract) + as-is models down to Repr level + whole function bodies regenerated into Coq on every run (CPS translation) + extracted-spec correspondence run"
 RULE = ("cases = API x input class. simplest_in: end points equal / swapped / both negative / sign-straddling / zero or integer "
         "end points / adjacent convergents of one continued fraction (deep two-sided descent, exact-division branch) / "
         "denominators of 1,2,3 words at 2^64k-1,0,+1. nearest/next_up/next_down: values built from continued fractions (terms "
@@ -129,19 +176,25 @@ RULE = ("cases = API x input class. simplest_in: end points equal / swapped / bo
         "2^k +- 1ulp, exponents around the integer threshold (ulp = 1/2,1,2), MAX, inf, NaN payloads, quotients n/d of small "
         "integers, random bits. simplest_from_float: base in {2,3,5,7,8,10,16,36} x six modes x precision in "
         "{0,1,2,3,5,10,20,53,64,100} x significand {1 digit..p digits, power of the base, all-max digits, B^k+-1, random} x sign "
-        "x exponent classes, +-inf, 0. A case is non-trivial when the oracle evaluated the Coq specification on a non-degenerate "
+        "x exponent classes, +-inf, 0; a third of the finite non-zero floats also as float_bounds (error_bounds, with_precision and the "
+        "two sums of the real code, stored Reprs and context precisions, against the deep model; verdict: the end points are the "
+        "specified preimage interval). A case is non-trivial when the oracle evaluated the Coq specification on a non-degenerate "
         "input (limit > 0, finite float); distinct = distinct case texts.")
 EXPLANATION = ("Theorems (coq/props/C18.v) cover every interval, limit and fraction; the implementation is tied to them (a) by "
                "regenerating the small pure bodies of rational/src/simplify.rs and the ErrorBounds table of float/src/round.rs into "
                "Coq on every run and re-proving that they equal the as-is models, and (b) by running each API on generated inputs "
                "and judging the answer with the extracted specification: simplest_in/simplest_from_* by equality with the specified "
                "optimum, next_up/next_down/nearest by the proved criterion 'the simplest fraction strictly between x and the answer "
-               "has a denominator above the limit'.")
+               "has a denominator above the limit'. Model fidelity (asis=same) requires the hand-written as-is model, the regenerated "
+               "whole body and - for floats - the deep Repr-level model (two digit estimates) / the macro over C06's decoder to agree "
+               "with each other and with the implementation.")
 TRUSTED_BASE = [
     "Coq 8.16.1 kernel (coqc); no axioms (Print Assumptions: closed under the global context)",
     "extraction: ExtrOcamlBasic + ExtrOcamlZBigInt + the Extract Constant directives of coq/extract/FastZ.v",
     "OCaml 4.13.1 + zarith 1.12, oracle/common.ml, oracle/driver_c18.ml; Rust harness harness/src/bin/c18.rs",
-    "value-level modelling of IBig/UBig/Repr::cmp/RBig::add/reduce and of the exact FBig add/sub forming the rounding bounds",
+    "value-level modelling of IBig/UBig/Repr::cmp/RBig::add/reduce/split_at_point; the FBig add/sub forming the rounding bounds is modelled on C03's add models (Float/AddModel.v: repr_add_small_large, repr_add_large_small, repr_round_sum) and C10's repr_round / norm_approx (Float/Model.v, Float/RoundOpsModel.v), whose fidelity is C03/C10's correspondence run and, for the bounds themselves, the op float_bounds of this run",
+    "C06's as-is model decode_asis of FloatEncoding::decode (Conv/ConvModel.v) and its theorem decode_f32_correct / decode_f64_correct (pinned as C06_decode_f32/f64), cited by C18_simplest_from_f32/f64_over_decode",
+    "tools/translate_c18_r4.py (parser of tools/translate.py via translate_c18_r3.P3 + a continuation-passing translator of whole function bodies): reads FBig::ulp, Context::max, FBig::with_precision, add_ref_val, TryFrom<FBigRepr> for Repr, RBig::simplest_from_float into coq/gen/SimplestFloatGen.v and Repr::simplest_in, RBig::simplest_in, nearest, next_up, next_down into coq/gen/SimplifyBodiesGen.v; hand-written semantics of its atoms: f.repr().is_infinite()/is_zero(), precision(), context.repr_round(_ref) / repr_add_* as calls of C03's models, Repr::new as normalize, .value() as approx_val, Approximation::unwrap as 'panic on Inexact', Self::try_from(fbig).unwrap() as reduce(Repr::try_from), Sign * Repr / UBig * Sign as signed, RBig +/- RBig and IBig + RBig as reduced sums, split_at_point, `x.denominator <<= k`, panic_divide_by_0(), debug_assert! as a panic, assert_finite_operands skipped (finite operands only)",
     "tools/translate_c18_r3.py (tokenizer/parser of tools/translate.py + a symbolic executor for straight-line loop bodies): reads is_simpler_than, the loops of farey_neighbors and Repr::simplest_in, the step of next_up/next_down, the selection of nearest (rational/src/simplify.rs) and impl Ord for Sign (base/src/sign.rs) into coq/gen/SimplifyGen.v at plug-in import; its reading of numerator()/denominator()/sign()/abs_cmp/cmp/then_with/is_lt/reduce/div_rem/mem::swap/take/replace and of Repr comparison as cross multiplication is hand-written semantics of those atoms",
     "Float/RoundSpec.v spec_round (shared with C03/C06/C08/C10, tied to the regenerated round_low_part tables by C03_T_round) as the meaning of rounding an exact quotient to an integer; Ratio/FloatPreimage.v rounds_to and Ratio/IeeePreimage.v ieee_rounds_to as the meaning of 'x rounds to the float'",
     "tools/translate_c18.py (reuses the tokenizer/parser of tools/translate.py): reads the six ErrorBounds bodies and the helpers is_power_of_base / towards_zero of float/src/round.rs into coq/gen/ErrorBoundsTable.v at plug-in import; the reading of f.ulp()/half_ulp/f.repr.digits()/significand.bit(0)/significand.abs_cmp(&IBig::ONE).is_eq() as EBUlp/EBHalfUlp/dg/Z.odd/(|sig| = 1) and eb_eval's 'ulp panics at precision 0' are hand-written semantics of those atoms",
@@ -393,7 +446,12 @@ def gen_cases(rng, tier, n):
         elif k < 74:
             out.append(gen_ieee(rng, False))
         elif k < 94:
-            out.append(gen_float(rng))
+            c = gen_float(rng)
+            # a third of the finite non-zero floats go through float_bounds: the bounds the code forms, digit for digit
+            t = c.split()
+            if rng.chance(1, 3) and t[4] not in ("inf", "-inf", "0"):
+                c = "float_bounds " + " ".join(t[1:])
+            out.append(c)
         else:
             out.append(gen_simpler(rng))
     return out
